@@ -3,7 +3,7 @@ from __future__ import annotations
 
 from typing import Callable, Dict, Optional
 
-from .rules import dispatch, ops, opt, reg, sig
+from .rules import dispatch, ops, opt, pyx, reg, repres, sig, small
 
 _CACHE: Dict[str, object] = {}
 
@@ -27,6 +27,16 @@ RULES: Dict[str, Callable] = {
     "R-OPT-LAYERS": _cached("R-OPT-LAYERS", opt.run_layers),
     "R-OPT-PAIRING": _cached("R-OPT-PAIRING", opt.run_pairing),
     "R-OPT-PINNED": _cached("R-OPT-PINNED", opt.run_pinned),
+    "R-CONST": _cached("R-CONST", small.run_const),
+    "R-STABLE": _cached("R-STABLE", small.run_stable),
+    "R-GUARDS": _cached("R-GUARDS", small.run_guards),
+    "R-PYX-DISCARD": _cached("R-PYX-DISCARD", pyx.run_discarded),
+    "R-PYX-DTYPE": _cached("R-PYX-DTYPE", pyx.run_dtypes),
+    "R-PYX-MUL": _cached("R-PYX-MUL", pyx.run_multiply),
+    "R-CODEC": _cached("R-CODEC", repres.run_codec),
+    "R-FINAL": _cached("R-FINAL", repres.run_final),
+    "R-REDUCE": _cached("R-REDUCE", repres.run_reduce),
+    "R-HEADER": _cached("R-HEADER", repres.run_header),
 }
 
 
@@ -41,6 +51,31 @@ class Use:
 
 
 PLAN: Dict[str, dict] = {
+    "C13": {
+        "uses": [Use("R-REDUCE"), Use("R-FINAL"), Use("R-HEADER"), Use("R-CODEC"), Use("R-SIG", scoped=True)],
+        "explanation": "x",
+        "not_decided": "",
+    },
+    "C18": {
+        "uses": [Use("R-STABLE")],
+        "explanation": "x",
+        "not_decided": "",
+    },
+    "C20": {
+        "uses": [Use("R-CODEC"), Use("R-PYX-MUL"), Use("R-HEADER")],
+        "explanation": "x",
+        "not_decided": "",
+    },
+    "C12": {
+        "uses": [Use("R-PYX-DISCARD"), Use("R-PYX-DTYPE")],
+        "explanation": "x",
+        "not_decided": "",
+    },
+    "C11": {
+        "uses": [Use("R-CONST"), Use("R-SIG", scoped=True)],
+        "explanation": "x",
+        "not_decided": "",
+    },
     "C14": {
         "uses": [Use("R-OPT-TABLE", clause="entire statement")],
         "explanation": "",
